@@ -394,12 +394,22 @@ func c15Check(e *c15Env, p *vreport.Part, c c15Case) {
 				if bi == 1 {
 					b = "pre-index builder"
 				}
-				// the most severe deviation only: one bug, few keys
-				if ps := c15ref.Judge(exp, o, true); len(ps) > 0 {
+				// small scopes: the most severe deviation only (one bug, few keys). Wide
+				// scope: every deviation. Which sibling subset a builder loses may depend
+				// on Go's map iteration order, and with it which deviation is the most
+				// severe one of a case (fallback default-subset can land inside the
+				// allowed set); reporting all of them makes the first case of every key
+				// one that fails whatever the order (policy none / any-endpoint come
+				// first), so the replay of a key is deterministic.
+				ps := c15ref.Judge(exp, o, true)
+				if len(ps) > 1 && c.Wide == nil {
+					ps = ps[:1]
+				}
+				for _, pb := range ps {
 					explained = true
-					p.Violation(fmt.Sprintf("%s | %s | %s", b, exp.Class, ps[0].What),
+					p.Violation(fmt.Sprintf("%s | %s | %s", b, exp.Class, pb.What),
 						fmt.Sprintf("lb=%s criteria=%v (fallback reason: %s; key sets: %s): %s; observed %s; hosts=%v selectors=%v policy=%d default=%v",
-							c.LB, q.p.Crit, exp.Reason, exp.Rel, ps[0].Detail, o, c.Cfg.Hosts, c.Cfg.Selectors, c.Cfg.Policy, c.Cfg.Default), only())
+							c.LB, q.p.Crit, exp.Reason, exp.Rel, pb.Detail, o, c.Cfg.Hosts, c.Cfg.Selectors, c.Cfg.Policy, c.Cfg.Default), only())
 				}
 			}
 		} else if q.p.Kind != "criteria" && (oF.Panic != "" || oP.Panic != "") {
